@@ -408,6 +408,11 @@ class Engine:
             ops = tuple(self.operand(st, fr, o) for o in r['ops'])
             ak = r['ak']
             if ak == 'adt':
+                # S { a: x.a, b: x.b, .. } built from every field of one value x is x (a timespec re-assembled from its parts)
+                names = r.get('fields') or []
+                if len(ops) >= 2 and len(names) == len(ops) and all(o[0] == 't' and o[1] == 'field' and str(o[2][1]) == str(nm_)
+                                                                     for o, nm_ in zip(ops, names)) and len({o[2][0] for o in ops}) == 1:
+                    return ops[0][2][0]
                 return ('agg', dest_ty if dest_ty else r['adt'], r['vname'], ops)
             if ak == 'tuple':
                 return ('agg', 'tuple', None, ops)
